@@ -12,7 +12,7 @@ open Geo Geo.PGen
 abbrev GFC := PGen.FeatureCollection MF GRect Obj (List Obj) MStr
 
 theorem fcoll_fold (rec : RecT) (o : POpts) (fuel : Nat) (hrec : RecOK rec o fuel) :
-    ∀ (items : List JVal) (xs : List RPair), xs.map (·.2) = items.map some → ∀ (g : GFC),
+    ∀ (items : List JVal) (xs : List RPair), xs.map (·.2) = items.map some → (∀ v ∈ items, JOK v = true) → ∀ (g : GFC),
     match parseList o fuel items with
     | .ok children =>
       searchFold (PGen.parseJSONFeatureCollection_lit1 (mops rec) (some (optsG o))) xs (g, none) =
@@ -20,9 +20,9 @@ theorem fcoll_fold (rec : RecT) (o : POpts) (fuel : Nat) (hrec : RecOK rec o fue
     | .error e => errU (searchFold (PGen.parseJSONFeatureCollection_lit1 (mops rec) (some (optsG o))) xs (g, none)).2 e := by
   intro items
   induction items with
-  | nil => intro xs h g; simp at h; subst h; simp [parseList, searchFold]
+  | nil => intro xs h _ g; simp at h; subst h; simp [parseList, searchFold]
   | cons v vs ih =>
-    intro xs h g
+    intro xs h hJ g
     cases xs with
     | nil => simp at h
     | cons x xs =>
@@ -30,7 +30,7 @@ theorem fcoll_fold (rec : RecT) (o : POpts) (fuel : Nat) (hrec : RecOK rec o fue
       obtain ⟨hx, hxs⟩ := h
       obtain ⟨k, x2⟩ := x
       simp only at hx; subst hx
-      have hr := hrec v
+      have hr := hrec v (hJ v (by simp))
       rw [parseList]
       have hstep : PGen.parseJSONFeatureCollection_lit1 (mops rec) (some (optsG o)) (k, some v) (g, none) =
           (if !(rec [Piece.doc v] (some (optsG o))).2.isNone then ((g, (rec [Piece.doc v] (some (optsG o))).2), false)
@@ -55,7 +55,7 @@ theorem fcoll_fold (rec : RecT) (o : POpts) (fuel : Nat) (hrec : RecOK rec o fue
             (({ g with collection := { g.collection with children := g.collection.children ++ [c] } }, none), true) := by
           rw [hstep, hr]; rfl
         rw [searchFold_cons_true _ _ _ _ _ hstep']
-        have := ih xs hxs { g with collection := { g.collection with children := g.collection.children ++ [c] } }
+        have := ih xs hxs (fun v' h' => hJ v' (by simp [h'])) { g with collection := { g.collection with children := g.collection.children ++ [c] } }
         cases hl : parseList o fuel vs with
         | error e => rw [hl] at this; simpa using this
         | ok cs => rw [hl] at this; simp only at this ⊢; rw [this]; simp
@@ -70,7 +70,8 @@ def mFColl (o : POpts) (fuel : Nat) (k : Keys) : Except PErr Obj :=
     | .ok children => .ok (mkColl o .featureCollection children (withMembers none k))
   | .ok _ => .error .featuresInvalid
 
-theorem fcoll_eq (rec : RecT) (o : POpts) (fuel : Nat) (hrec : RecOK rec o fuel) (gk : GKeys) (k : Keys) (hk : KeysRel gk k) :
+theorem fcoll_eq (rec : RecT) (o : POpts) (fuel : Nat) (hrec : RecOK rec o fuel) (gk : GKeys) (k : Keys) (hk : KeysRel gk k)
+    (hJ : ∀ items, k.features = some (.arr items) → ∀ v ∈ items, JOK v = true) :
     AgreeU (PGen.parseJSONFeatureCollection (mops rec) (some gk) (some (optsG o))) (mFColl o fuel k) := by
   unfold PGen.parseJSONFeatureCollection mFColl reqArray
   simp only [m_gjsonResultExists, m_gjsonResultIsArray, m_gjsonResultForEach, m_nilObject, m_objectOfFeatureCollection,
@@ -80,7 +81,7 @@ theorem fcoll_eq (rec : RecT) (o : POpts) (fuel : Nat) (hrec : RecOK rec o fuel)
   | some rc =>
     cases rc with
     | arr items =>
-      have hf := fcoll_fold rec o fuel hrec items (forEach (some (.arr items))) (by simp [forEach]) (PGen.zeroFeatureCollection (mops rec))
+      have hf := fcoll_fold rec o fuel hrec items (forEach (some (.arr items))) (by simp [forEach]) (hJ items hc) (PGen.zeroFeatureCollection (mops rec))
       simp only [Option.isSome_some, Bool.not_true, Bool.false_eq_true, if_false, JVal.isArray, ↓reduceIte]
       cases hl : parseList o fuel items with
       | error e =>
